@@ -184,6 +184,33 @@ theorem bsf_antitone (s : State) (as bs : List A) :
     have h1 := ih (step n D op s' b)
     rw [h3]; omega
 
+/-- a move sequence in which every move is admitted (by an arbitrary admissibility relation) at the
+tour it is applied to -/
+def AdmRun (Adm : Rec → A → Prop) : Rec → List A → Prop
+  | _, [] => True
+  | r, a :: as => Adm r a ∧ AdmRun Adm (op r a) as
+
+/-- **C09 (validity of both stored tours).**  If every admitted move maps valid tours to valid tours
+(`P` = any notion of validity), then after ANY admitted move sequence both `rec_current` and the stored
+`rec_best` are valid. -/
+theorem valid_of_run (P : Rec → Prop) (Adm : Rec → A → Prop)
+    (hop : ∀ r a, P r → Adm r a → P (op r a)) (as : List A) :
+    ∀ (s : State), P s.recCur → P s.recBest → AdmRun op Adm s.recCur as →
+      P (final n D op s as).recCur ∧ P (final n D op s as).recBest := by
+  induction as with
+  | nil => intro s h1 h2 _; exact ⟨h1, h2⟩
+  | cons a as ih =>
+    intro s h1 h2 hadm
+    have hn : P (op s.recCur a) := hop _ _ h1 hadm.1
+    have hfin : final n D op s (a :: as) = final n D op (step n D op s a) as := rfl
+    rw [hfin]
+    apply ih
+    · exact hn
+    · by_cases hlt : cost n D (op s.recCur a) < s.costBsf
+      · rw [step_lt n D op s a hlt]; exact hn
+      · rw [step_ge n D op s a hlt]; exact h2
+    · exact hadm.2
+
 /-- Non-vacuity / sanity: 4 nodes on a line (`D a b = |a − b|`), start from the tour 0→2→1→3→0 of
 length 8, move to 0→1→2→3→0 (length 6, improving) and back (worsening): rewards 2 then 0, the best
 tour and its cost are kept while the current cost goes back to 8. -/
